@@ -7,6 +7,7 @@
      (sqconc nMAX nINTERVAL (ev ..)) ev = (stake nI) | (stick nI) | (sstep nI) | (supd nMAX nINTERVAL)
      (slive  nLIM (ev ...))          ev = (sacc bEARLIER bLATER) | (sbatch nK) | sclose | (supd nL) | sdup
      (sdial  nLIM (ev ...))          ev = (sdial bEARLIER bLATER) | sclose | sredial
+     (swall  nMAX nINTERVAL ((nMAX nINTERVAL) ...))   Update sequence of a wall-clock run
      (sqlive nTOTAL nHANDLER nINTERVAL (ev ...))  ev = (scall sM) | (spush sM) | stick   (M = a | b)
    observations: one item per op/event, see each runner. *)
 From Coq Require Import Strings.String Strings.Byte.
@@ -240,6 +241,23 @@ Fixpoint run_qlive (total handler : option bucket) (evs : list val) : option (li
            end
   end.
 
+(* ---- wall-clock run: the observation compared with the model is the number of
+        goroutines the sequence of Update calls left behind ---- *)
+Fixpoint pairs_zz (l : list val) : option (list (Z * Z)) :=
+  match l with
+  | [] => Some []
+  | VL [VN a; VN b] :: r => option_map (cons (Z.of_N a, Z.of_N b)) (pairs_zz r)
+  | _ => None
+  end.
+
+Definition run_wall (m iv : Z) (us : list val) : option val :=
+  match pairs_zz us with
+  | Some ps =>
+      let s := kupdates true (kinit m iv) ps in
+      Some (VL [VZ (goroutines s - 1); VN (Z.to_N (firing s))])
+  | None => None
+  end.
+
 Definition mk_bucket (maxq interval : Z) : option (option bucket) :=
   if maxq <=? 0 then Some None
   else match once_of maxq interval with
@@ -260,7 +278,8 @@ Definition run (inp : val) : option val :=
       match once_of (Z.of_N m) (Z.of_N iv) with
       | None => None
       | Some o =>
-          if sym_eqb k "qseq" then option_map VL (run_qseq (mkB (Z.of_N m) (Z.of_N m) o) evs)
+          if sym_eqb k "wall" then run_wall (Z.of_N m) (Z.of_N iv) evs
+          else if sym_eqb k "qseq" then option_map VL (run_qseq (mkB (Z.of_N m) (Z.of_N m) o) evs)
           else if sym_eqb k "qconc" then option_map VL (run_qconc (qinit (Z.of_N m) o) evs)
           else None
       end
